@@ -122,6 +122,28 @@ def edit_power(path, kind, rng):
         else:   # lumped
             rows = [r for r in rows if not (r.split(',')[1] == code and
                                             int(r.split(',')[4]) > 1)]
+    elif kind.startswith('cells-'):
+        # one component subdivided into more axial cells than the others
+        # (each component well-formed on its own): the first cell of that
+        # component is split in two
+        comp = kind.split('-')[1]
+        code = {'pins': '1', 'duct': '2', 'cool': '3'}[comp]
+        mine = [r for r in rows if r.split(',')[1] == code]
+        if mine:
+            z0 = min(float(r.split(',')[2]) for r in mine)
+            new = []
+            for r in rows:
+                p = r.split(',')
+                if p[1] == code and float(p[2]) == z0:
+                    zm = 0.5 * (float(p[2]) + float(p[3]))
+                    a = list(p)
+                    b = list(p)
+                    a[3] = repr(zm)
+                    b[2] = repr(zm)
+                    new += [','.join(a), ','.join(b)]
+                else:
+                    new.append(r)
+            rows = new
     elif kind == 'zgap':
         # shift the lower bound of the upper cells upward: a gap
         zs = sorted({float(r.split(',')[2]) for r in rows})
@@ -458,7 +480,8 @@ def targeted(rng, base, tier):
                'zgap', 'nan', 'inf', 'neginf',
                'count-less-pins', 'count-less-duct', 'count-less-cool',
                'count-more-pins', 'count-more-duct', 'count-more-cool',
-               'count-lumped-cool', 'count-lumped-duct'):
+               'count-lumped-cool', 'count-lumped-duct',
+               'cells-pins', 'cells-duct', 'cells-cool'):
         add('power-' + ed, lambda c, t, r: None, ['PowerProfile'], badpow,
             pedit=ed)
     if len(base(random.Random(1))[0]['types']) > 1:
